@@ -374,6 +374,10 @@ pub(super) fn monty_modpow(x: &BigUint, y: &BigUint, m: &BigUint) -> /*+*/(res: 
 
     // We want the lengths of x and m to be equal.
     // It is OK if x >= m as long as len(x) == len(m).
+//+{
+    proof { lemma_congm_refl(x0, mv); }
+    let ghost mut xs1 = x.data@;
+//+}
     if x.data.len() > num_words {
         RemAssign::rem_assign(&mut x, m);
         // Note: now len(x) <= numWords, not guaranteed ==.
@@ -383,22 +387,16 @@ pub(super) fn monty_modpow(x: &BigUint, y: &BigUint, m: &BigUint) -> /*+*/(res: 
             let q = choose|q: nat| #[trigger] udiv_ok(x0 as nat, m.v(), q, x.v());
             lemma_congm_add_multiple(x.v() as int, q as int, mv);
             lemma_congm_sym(x0, x.v() as int, mv);
+            xs1 = x.data@;
         }
 //+}
     }
-//+{
-    else { proof { lemma_congm_refl(x0, mv); } }
-    let ghost xs1 = x.data@;
-//+}
     if x.data.len() < num_words {
         x.data.resize(num_words, 0);
 //+{
         proof { lemma_val_zero_ext(xs1, x.data@); }
 //+}
     }
-//+{
-    assert(x.data@.len() == nw && congm(val(x.data@) as int, x0, mv));
-//+}
 
     // rr = 2**(2*_W*len(m)) mod m
     let mut rr = BigUint::one();
